@@ -27,6 +27,31 @@ pub fn points_block<const K: usize>(out: &mut String, t: &AffTree<K>, pts: &[Arr
     }
 }
 
+/// the same tree as `g`, stored in an arena whose first root was a draft that a second `Tree::add_root` replaced
+/// (documented behaviour: the new node becomes the root, the former root stays in the arena, disconnected): the
+/// root does not live in slot 0 and every index differs from the usual layout
+fn rerooted<const K: usize>(rng: &mut Rng, g: &AffTree<K>) -> AffTree<K> {
+    use affinitree::pwl::node::AffContent;
+    use affinitree::tree::graph::Tree;
+    let mut tree: Tree<AffContent, K> = Tree::new();
+    let root_val = g.tree.tree_node(g.tree.get_root_idx()).unwrap().value.clone();
+    let draft_rows = 1 + rng.below(3);
+    tree.add_root(AffContent::new(rand_aff(rng, draft_rows, g.in_dim())));
+    let root = tree.add_root(root_val);
+    let mut stack = vec![(g.tree.get_root_idx(), root)];
+    while let Some((src, dst)) = stack.pop() {
+        let children = g.tree.tree_node(src).unwrap().children;
+        for (label, c) in children.iter().enumerate() {
+            if let Some(c) = c {
+                let v = g.tree.tree_node(*c).unwrap().value.clone();
+                let d = tree.add_child_node(dst, label, v).unwrap();
+                stack.push((*c, d));
+            }
+        }
+    }
+    AffTree::<K>::from_tree(tree, g.in_dim())
+}
+
 fn one<const K: usize>(rng: &mut Rng, thorough: bool) -> String {
     let n = 1 + rng.below(3);
     let m = 1 + rng.below(3);
@@ -62,7 +87,12 @@ fn one<const K: usize>(rng: &mut Rng, thorough: bool) -> String {
     let g_before = g.clone();
     // both spellings of the un-pruned composition (the VERBOSE variant only adds a progress bar)
     let verbose = rng.chance(1, 3);
-    let res = catch_unwind(AssertUnwindSafe(|| if verbose { h.compose::<false, true>(&g) } else { h.compose::<false, false>(&g) }));
+    // one right operand in eight lives in a re-rooted arena; the judge is given the plain twin (the law speaks about
+    // the function of g, and indices of g never reach the result)
+    let gr = if rng.chance(1, 8) { Some(rerooted(rng, &g)) } else { None };
+    let gr_before = gr.as_ref().map(|t| { let mut s = String::new(); enc::afftree(&mut s, t); s });
+    let g_used: &AffTree<K> = gr.as_ref().unwrap_or(&g);
+    let res = catch_unwind(AssertUnwindSafe(|| if verbose { h.compose::<false, true>(g_used) } else { h.compose::<false, false>(g_used) }));
     out.push_str("C02 compose ");
     enc::afftree(&mut out, &f);
     out.push(' ');
@@ -75,7 +105,15 @@ fn one<const K: usize>(rng: &mut Rng, thorough: bool) -> String {
     out.push_str("ok ");
     enc::afftree(&mut out, &h);
     out.push(' ');
-    enc::afftree(&mut out, &g);
+    match (&gr, &gr_before) {
+        (Some(t), Some(b)) => {
+            let mut s = String::new();
+            enc::afftree(&mut s, t);
+            // unchanged re-rooted operand: reported as its plain twin; a changed one as it is
+            if &s == b { enc::afftree(&mut out, &g) } else { out.push_str(&s) }
+        }
+        _ => enc::afftree(&mut out, &g),
+    }
     out.push(' ');
     let pts = rand_points(rng, &f, 10);
     points_block(&mut out, &h, &pts);
